@@ -153,6 +153,23 @@ def lock_static(job, ev, ctx):
     return viol
 
 
+def apalache_msg(job, ev, ctx):
+    """C17: Apalache shows the invariants of spec/Msg.tla inductive (Init => IndInv, IndInv /\\ Next => IndInv'): they
+    hold for unbounded reference counts and histories, not only within TLC's bound.  This is about the
+    specification only: a failure is a broken specification (exit 2), never a verdict on the code."""
+    import subprocess
+    api = ctx['api']
+    try:
+        p = subprocess.run(['python3', '/verif/tools/apalache_msg.py'], capture_output=True, text=True, timeout=1500)
+    except subprocess.TimeoutExpired:
+        raise api['Infra']('apalache timed out')
+    if 'APALACHE-OK' not in p.stdout:
+        raise api['Infra']('Apalache: the invariant of Msg.tla is not inductive (or the tool failed):\n' + (p.stdout + p.stderr)[-2500:])
+    ev['tlc_runs'].append({'module': 'MsgInd (Apalache 0.58)', 'cfg': 'Init => IndInv; IndInv /\\ Next => IndInv\' (4 message identities, unbounded counts)',
+                           'generated': None, 'distinct': None, 'violated': [], 'wall_s': float(p.stdout.split()[-1])})
+    return []
+
+
 def race_job(job, ev, ctx):
     """C11: the concurrent drivers built with the race detector.  A report whose two accesses are both in
     library code is a violation, identified by the pair of source lines; harness-only reports are ours."""
@@ -316,6 +333,7 @@ CHECKS = {
     'C17': {
         'level': 'model_checking',
         'jobs': [
+            {'type': 'custom', 'name': 'apalache-inductive', 'fn': apalache_msg},
             C('link', 'TestLinkReal', 'TraceLink', env={'VERIF_LINK_PATS': 'pair,reqrep,survey,pubsub'}),   # what Recv() returned (socket and context) is looked at again after later traffic
             R('xrep', 'xrep'), R('xrespondent', 'xrespondent'),
             T('MC_Msg', 'Msg.cfg', workers=4),
